@@ -2,7 +2,7 @@
 import math
 from fractions import Fraction as F
 
-SUPPORTS = [0.0, 0.05, 0.3, 1.0, 1.0, 2.0, 10.0, 0.001]
+SUPPORTS = [0.0, 0.05, 0.3, 1.0, 1.0, 2.0, 10.0, 0.001, 1e-6, 1e-10, 1e-13, 1000.0]
 BLOC_NAMES = [["W", "C", "X"], ["b2", "B1", "a3"], ["C", "W", "Z"]]
 
 SLATE_MODELS = ["slate_PlackettLuce", "slate_BradleyTerry", "AlternatingCrossover", "CambridgeSampler"]
@@ -53,6 +53,19 @@ def gen_params(rnd, nblocs=None, max_slate=3, zero_support=None, extremes=True):
         v = split_unit(rnd, nb, extremes)
         coh[b] = dict(zip(names, v))
     props = dict(zip(names, split_unit(rnd, nb, extremes)))
+
+    # dictionaries are written in independent key orders: bloc order, slate order and candidate order inside an
+    # interval need not agree (own bloc first, alphabetical, ...)
+    def shuffled(d):
+        ks = list(d)
+        rnd.shuffle(ks)
+        return {k: d[k] for k in ks}
+
+    if rnd.random() < 0.6:
+        piv = {b: shuffled({s: shuffled(d) for s, d in per.items()}) for b, per in shuffled(piv).items()}
+        coh = {b: shuffled(d) for b, d in shuffled(coh).items()}
+        if rnd.random() < 0.5:
+            s2c = shuffled(s2c)
     return {"slate_to_candidates": s2c, "pref_intervals_by_bloc": piv, "cohesion_parameters": coh, "bloc_voter_prop": props}
 
 
